@@ -267,13 +267,6 @@ pub fn tree_walker(
                 target_base.clone()
             };
 
-            if config.no_clobber && lexists(&target)? {
-                let msg = "Destination file exists and --no-clobber is set.";
-                stats.send(StatusUpdate::Error(
-                    XcpError::DestinationExists(msg, target)))?;
-                return Err(XcpError::EarlyShutdown(msg).into());
-            }
-
             // Two sources may map onto the same path (equally named
             // files from different directories). Copying the second
             // over what this very run has just put there is at best
@@ -305,6 +298,15 @@ pub fn tree_walker(
                         return Err(XcpError::EarlyShutdown(msg).into());
                     }
                 }
+            }
+
+            // (Only now: a source named twice has been skipped above,
+            // whether or not a worker has already created its copy.)
+            if config.no_clobber && lexists(&target)? {
+                let msg = "Destination file exists and --no-clobber is set.";
+                stats.send(StatusUpdate::Error(
+                    XcpError::DestinationExists(msg, target)))?;
+                return Err(XcpError::EarlyShutdown(msg).into());
             }
 
             let ft = FileType::from(meta.file_type());
